@@ -115,3 +115,32 @@ def optima():
         ok = np.allclose(sols['spline'], sols['ms'], atol=1e-5)
         out.append(('C17.d:optima:L%dN%d' % (L, N), 'ok' if ok else 'mismatch', 'spline %s vs shooting %s' % (np.round(sols['spline'], 6).tolist(), np.round(sols['ms'], 6).tolist())))
     return out
+
+
+def saveload():
+    """C18 for SplineMethod: save after a solve, load, solve the loaded problem: same trajectory; the original still solves."""
+    import tempfile, os
+    out = []
+    try:
+        ocp = Ocp(t0=0, T=2)
+        p = ocp.state(); v = ocp.state(); a = ocp.control()
+        ocp.set_der(p, v); ocp.set_der(v, a)
+        ocp.subject_to(ocp.at_t0(p) == 0); ocp.subject_to(ocp.at_tf(p) == 1)
+        ocp.subject_to(ocp.at_t0(v) == 0); ocp.subject_to(ocp.at_tf(v) == 0)
+        ocp.add_objective(ocp.sum(a ** 2))
+        ocp.solver('ipopt', {"print_time": False, "ipopt": {"print_level": 0, "sb": "yes"}})
+        ocp.method(SplineMethod(N=5))
+        s1 = np.array(quiet(ocp.solve).sample(p, grid='control')[1]).reshape(-1)
+        fd, fn = tempfile.mkstemp(suffix='.rockit'); os.close(fd)
+        try:
+            quiet(ocp.save, fn)
+            o2 = quiet(Ocp.load, fn)
+        finally:
+            os.unlink(fn)
+        s2 = np.array(quiet(o2.solve).sample(o2.states[0], grid='control')[1]).reshape(-1)
+        s3 = np.array(quiet(ocp.solve).sample(p, grid='control')[1]).reshape(-1)
+        ok = np.allclose(s1, s2, atol=1e-6) and np.allclose(s1, s3, atol=1e-6)
+        out.append(('C18.a:spline', 'ok' if ok else 'mismatch', 'original %s loaded %s original again %s' % (s1.round(5).tolist(), s2.round(5).tolist(), s3.round(5).tolist())))
+    except Exception as e:
+        out.append(('C18.a:spline', 'error', '%s: %s' % (type(e).__name__, (str(e).splitlines() or [''])[-1][:200])))
+    return out
